@@ -333,11 +333,14 @@ impl Stream for DnsResponseReceiver {
             *self = match &mut *self {
                 Self::Receiver(receiver) => {
                     let receiver = Pin::new(receiver);
-                    let future = ready!(
-                        receiver
-                            .poll(cx)
-                            .map_err(|_| NetError::from("receiver was canceled"))
-                    )?;
+                    // the sender is dropped when the exchange shuts down with the request still
+                    // queued, i.e. the connection went away before the request was sent
+                    let future = ready!(receiver.poll(cx).map_err(|_| {
+                        NetError::from(io::Error::new(
+                            io::ErrorKind::ConnectionAborted,
+                            "receiver was canceled",
+                        ))
+                    }))?;
                     Self::Received(future)
                 }
                 Self::Received(stream) => {
